@@ -47,8 +47,21 @@ def gen_kwargs(rng: random.Random, gen: str, r: int, c: int, constrained_bias: f
     return kw
 
 
-def gen_spec(rng: random.Random, seed: int, max_n: int, constrained_bias: float, gens=GENS, big: bool = False) -> dict:
+LONG_SIDES = [126, 127, 128, 129, 130, 131, 200, 255, 256, 257, 300]
+
+
+def gen_spec(rng: random.Random, seed: int, max_n: int, constrained_bias: float, gens=GENS, big: bool = False, long: bool = False) -> dict:
     gen = rng.choice(gens)
+    if long:
+        # long thin grids whose side crosses the ranges of the narrow integer types used for coordinates (int8 / uint8)
+        if gen == "gen_wilson":
+            r, c = rng.choice([1, 2]), rng.choice([127, 128, 129, 130])
+        else:
+            r, c = rng.choice([1, 2, 3]), rng.choice(LONG_SIDES)
+        if rng.random() < 0.5:
+            r, c = c, r
+        kw = gen_kwargs(rng, gen, r, c, constrained_bias)
+        return {"seed": seed, "gen": gen, "shape": [r, c], "kwargs": kw, "mode": "real" if gen == "gen_wilson" or rng.random() < 0.6 else "owned"}
     if big:
         r = c = rng.choice([16, 20])
         if rng.random() < 0.5:
